@@ -137,7 +137,8 @@ def canon(wn, version):
     o['time'].pop('pattern_interpolation', None)
     o.pop('graphics', None)
     o.pop('user', None)
-    o.pop('report', None)
+    rep_ = o.pop('report', None) or {}
+    o['report'] = {k: (str(rep_.get(k)).upper() if rep_.get(k) is not None else None) for k in ('status', 'summary', 'energy')}     # the three keyword options of [REPORT]
     for k in ('hydraulics', 'hydraulics_filename', 'inpfile_units', 'inpfile_pressure_units'):
         o['hydraulic'].pop(k, None)
     o['quality'].pop('inpfile_units', None)
